@@ -8,6 +8,7 @@ import (
 	"os/exec"
 	"path/filepath"
 	"regexp"
+	"runtime/debug"
 	"sort"
 	"strconv"
 	"strings"
@@ -638,6 +639,9 @@ func runOblig(base *sym.Engine, prog *sym.Program, p *Prop, o Oblig, worker int,
 		defer func() {
 			if x := recover(); x != nil {
 				r.Err = fmt.Sprintf("engine failure: %v", x)
+				if os.Getenv("VERIF_TRACE") != "" {
+					fmt.Fprintf(os.Stderr, "%s\n", debug.Stack())
+				}
 				e.Inconclusive = append(e.Inconclusive, o.Harness+": engine failure: "+fmt.Sprint(x))
 			}
 		}()
